@@ -1,6 +1,6 @@
 """Per-property checks.  Each check_<ID>(ctx) explores, reports rejected cases through ctx.report and
 leaves counters in ctx; the driver writes evidence and the exit code."""
-import os, json
+import os, json, subprocess
 from driver import *
 
 FAMILIES = ["calls", "globals", "tables", "memories"]
@@ -486,3 +486,53 @@ def check_C16(ctx):
             ctx.report("deep-nesting-%d" % depth, "deep-nesting-not-traversed-on-small-stack", res, {"source": "deep:%d" % depth})
     ctx.notes["deep_nesting"] = deep
     ctx.assumptions += ["stack-depth independence has no TLA+ counterpart beyond 'the transcribed algorithms have no recursion'; it is measured (256 KiB stack, depth 10^5)"]
+
+
+def check_C05(ctx):
+    ctx.rule = ("design: ParseGate.tla over every payload sequence of length <= 3 (quick) / 4 (thorough) of {acceptable, invalid, unsupported} payloads of every section kind: "
+                "InterpretOnlyValidated, BodiesAfterWholeBinary, OnParseOnlyOnSuccess, termination; implementation: random bytes, structure-aware mutants of valid modules (bit flips, "
+                "truncation, section swap / duplicate / delete, oversized counts, opcode substitution, odd section ids, header edits, span deletion), all fixtures incl. invalid ones, one "
+                "family of modules per unstable proposal, nesting depth 10^5, each under {default, only_stable_features}, parsed in a child process with a per-case watchdog; TLC requires "
+                "outcome in {ok, err}, outcome = ok <=> the standalone validator accepts under the same feature set, and that the hook events are a behaviour of the gate. A case is one "
+                "(byte string, configuration).")
+    q = ctx.quick()
+    cfg = write_cfg("MC_ParseGate_gen", open(os.path.join(SPEC, "MC_ParseGate.cfg")).read().replace("MaxPayloads = 3", "MaxPayloads = %d" % (3 if q else 4)))
+    model_check(ctx, "ParseGate", cfg=cfg, workers=8, label="design-parse-gate")
+    n = 3000 if q else 300000
+    trace = os.path.join(ctx.work, "parse.ndjson")
+    if os.path.exists(trace):
+        os.remove(trace)
+    args = ["trace-parse", "inputs=fixtures-all,gen:%d,gen:%d:stable,proposals:%d" % (60 if q else 1500, 20 if q else 500, 3 if q else 40), "n=%d" % n, "seed=%d" % ctx.seed, "out=" + trace]
+    crashes = []
+    start = 0
+    for attempt in range(50):
+        build()
+        p = subprocess.run([WV] + args + ["start=%d" % start], stdout=subprocess.PIPE, stderr=subprocess.STDOUT, text=True, timeout=7200)
+        if p.returncode == 0:
+            break
+        done = sum(1 for _ in open(trace)) if os.path.exists(trace) else 0
+        # the case that was running when the process died
+        k = done - len(crashes) if False else done
+        info = wv(["parse-one"] + args[1:] + ["k=%d" % done], check=False)
+        try:
+            rec = json.loads([l for l in info.splitlines() if l.startswith("{")][-1])
+        except Exception:
+            rec = {"id": "case-%d" % done, "source": "c05:case:%d" % done}
+        outcome = "hang" if p.returncode == 77 else "crash"
+        line = {"id": rec["id"], "source": rec["source"], "cfg": "stable" if done % 2 else "default", "verdict": False, "why": "", "outcome": outcome,
+                "msg": "child exit %s: %s" % (p.returncode, p.stdout.strip()[-200:]), "events": [], "calls": 0, "len": len(rec.get("hex", "")) // 2, "hooks": False}
+        with open(trace, "a") as f:
+            f.write(json.dumps(line) + "\n")
+        crashes.append(line)
+        start = done + 1
+    else:
+        raise ToolError("trace-parse keeps dying")
+    ctx.notes["child_process_deaths"] = len(crashes)
+    r, cases = judge_trace(ctx, "Trace_Parse", trace, slim=lambda c: {k: c[k] for k in ("id", "source", "cfg", "verdict", "outcome", "msg")})
+    import collections
+    ctx.notes["outcomes"] = {"%s/%s/%s" % k: v for k, v in collections.Counter((c["cfg"], "valid" if c["verdict"] else "invalid", c["outcome"]) for c in cases).items()}
+    ctx.notes["rejected_by_stable_only"] = sum(1 for a, b in zip(cases[0::2], cases[1::2]) if a["outcome"] == "ok" and b["outcome"] == "err")
+    ctx.notes["hook_events_validated"] = sum(len(c["events"]) for c in cases)
+    for c in cases[:1] + cases[len(cases) // 2: len(cases) // 2 + 1] + cases[-1:]:
+        ctx.sample({k: c[k] for k in ("id", "cfg", "verdict", "outcome", "events", "calls")})
+    ctx.assumptions += ["wasmparser's validator under walrus's feature list defines validity; the space of byte strings is sampled"]
